@@ -49,3 +49,16 @@ claim("C13",
  "Three harnesses on the real code: (1) PullRewards/Calculate with arbitrary yearly supplies, year table, burnout rate and pool over three block-time scenarios and five heights: amount >= 0, within (year supply - distributed till last cycle) of the selected year, burnout capped by the pool; (2) restart independence: a calculator that cached the amount at the first block of a cycle and a fresh one agree at later heights of the cycle although Distributed moved; (3) handleBlockRewards with symbolic voting powers, signed flags, proposer, delegation pool and delegator amounts: everything credited to validators, delegators and proposer together is at most the pulled amount (nonlinear; goals discharged by z3 over the integers or on the real relaxation).",
  "Block times are three concrete scenarios, not arbitrary sequences; 2/3 validators, 2 delegators; validator reward withdrawal (matured balance) not yet encoded. The BlockStore is a harness-supplied table of header times.",
  "DESIGN.md §6 C13")
+
+claim("C01",
+ "2-run non-interference over whole blocks through the real blockBeginner/txDeliverer/blockEnder/commitor: a plain full node with insertion-ordered maps versus a node carrying validator A's identity with every rotation of the iteration order of every Go map ranged over; same genesis (2 validators), same two blocks (one SEND with symbolic amount/currency/fee, then an empty block): DeliverTx results, validator updates and the ordered write set replayed into the tree are equal on every path.",
+ "Thin: the environment dimensions wall clock, uuid, witness role and job store are not reached by these blocks; hooks with non-empty inputs (allegation verdicts, proposal expiry/finalisation, tracker transitions) and the other kinds are not yet in the compared blocks. The application hash is compared through the ordered write set (iavl stub: hash = injective function of the write history).",
+ "DESIGN.md §6 C01")
+claim("C07",
+ "2-run comparison over two whole blocks: a replica on which one CheckTx of an arbitrary SEND/STAKE/DELEGATE transaction is injected at any of the 5 ABCI call boundaries of the first block versus a twin without it: DeliverTx results, validator updates and ordered write sets of both blocks are equal on every path (symbolic amounts, currencies, fees, balances).",
+ "One injected CheckTx; quick tier pins party A to every role of the checked transaction (thorough: all role assignments); real concurrency is outside (the engine is sequential, Tendermint serialises the two connections).",
+ "DESIGN.md §6 C07")
+claim("C08",
+ "Relational crash/restart harness over the real App on the iavl model: a node dying at any of the 5 ABCI call boundaries of a block (in-memory heap dropped, a new App opened on the same database, options reloaded as Prepare does) reports the version/hash of the last completed commit through Info and, after the block is replayed, produces the same transcripts for it and for the next block as a node that never stopped.",
+ "Decided relative to the IAVL contract (SaveVersion atomic, Load returns last saved version): durability below the iavl API and Tendermint's handshake are not decided by this technique. One crash, one transaction kind (SEND), 2 blocks. The reward-calculator restart independence is C13's harness.",
+ "DESIGN.md §6 C08")
